@@ -52,6 +52,8 @@ type ReqParams struct {
 	SkipPrivate bool   `json:"skip_private,omitempty"`
 	// Omit (HTTP only): query keys left out of the request; the fields above then hold the documented defaults
 	Omit []string `json:"omit,omitempty"`
+	// Repeat (HTTP only): query keys that appear twice, with the same value
+	Repeat []string `json:"repeat,omitempty"`
 }
 
 func (p ReqParams) ToLib() traceroute.TracerouteParams {
@@ -96,6 +98,12 @@ func (p ReqParams) ToQuery() string {
 	q.Set("skip-private-hops", strconv.FormatBool(p.SkipPrivate))
 	for _, k := range p.Omit {
 		q.Del(k)
+	}
+	// keys given twice with the same value (clients that merge default and per-request parameters do that)
+	for _, k := range p.Repeat {
+		if q.Has(k) {
+			q.Add(k, q.Get(k))
+		}
 	}
 	return q.Encode()
 }
